@@ -346,7 +346,7 @@ func VerifGenExtendsOwn() {
 	site, attr, doc := genBase()
 	vrtAssume(site.section == "services" && attr != "extends" && genSecond != nil)
 	cls := attr
-	child := map[string]string{"s": "t", "s.x": "t.y", "nx-s": "nx-t"}[genSvc]
+	child := map[string]string{"s": "t", "s.x": "t.y", "nx-s": "nx-t", "x-s": "x-t"}[genSvc]
 	base := doc["services"].(map[string]any)[genSvc].(map[string]any)
 	// A: two files merged
 	f1 := genDocCopy(doc)
@@ -408,4 +408,61 @@ func VerifGenInterpNum() {
 	if eb == nil {
 		genSameProject("number-through-variable:"+cls, pa, pb)
 	}
+}
+
+// Names are opaque (C12, C11, C03, C08: every per-attribute rule is stated for "a service", "a volume", ... whatever it
+// is called): the same attribute value under a service or resource with a dotted name, a name containing `x-` or a name
+// starting with `x-` loads to the same definition as under the plain name - same resolved paths, same defaults, same
+// canonical forms, same casts.
+func VerifGenNames() {
+	site, attr, value, _ := genPick("v1", "10", "1s")
+	genFiles()
+	cls := site.section + "." + attr
+	docA := genDoc(site, attr, genCopy(value))
+	plainSvc, plainRes := genSvc, genRes
+	k := vrtChoice("otherNames", 3)
+	genSvc = []string{"s.x", "nx-s", "x-s"}[k]
+	genRes = []string{"r.x", "nx-r", "x-r"}[k]
+	docB := genDoc(site, attr, genCopy(value))
+	otherSvc, otherRes := genSvc, genRes
+	genSvc, genRes = plainSvc, plainRes
+	ma, ea := tcLoad(types.Mapping{}, nil, genDocCopy(docA))
+	vrtObserve("err", ea != nil)
+	vrtAssume(ea == nil)
+	mb, eb := tcLoad(types.Mapping{}, nil, genDocCopy(docB))
+	if eb != nil {
+		vrtObserve("msg", eb.Error())
+	}
+	vrtAssert("loads-under-another-name#"+cls, eb == nil)
+	if eb != nil {
+		return
+	}
+	body := func(m map[string]any, section, name string) any {
+		sec, _ := m[section].(map[string]any)
+		b, _ := sec[name].(map[string]any)
+		if b == nil {
+			return sec[name]
+		}
+		out := genClone(b)
+		// the default name derives from the key (prefixed by the project name unless the resource is external)
+		if out["name"] == any("p_"+name) || out["name"] == any(name) {
+			delete(out, "name")
+		}
+		return out
+	}
+	if site.section == "services" {
+		vrtObserve("body", body(ma, "services", plainSvc))
+		vrtAssert("same-definition-under-another-name#"+cls, vrtDeepEqual(body(ma, "services", plainSvc), body(mb, "services", otherSvc)))
+		pa, e1 := tcLoadProject(types.Mapping{}, nil, docA)
+		pb, e2 := tcLoadProject(types.Mapping{}, nil, docB)
+		vrtAssert("same-outcome-under-another-name#"+cls, (e1 != nil) == (e2 != nil))
+		if e1 == nil && e2 == nil {
+			sa, sb := pa.Services[plainSvc], pb.Services[otherSvc]
+			sa.Name, sb.Name = "", ""
+			vrtAssert("same-service-under-another-name#"+cls, vrtDeepEqual(any(sa), any(sb)))
+		}
+		return
+	}
+	vrtObserve("body", body(ma, site.section, plainRes))
+	vrtAssert("same-definition-under-another-name#"+cls, vrtDeepEqual(body(ma, site.section, plainRes), body(mb, site.section, otherRes)))
 }
